@@ -11,6 +11,17 @@ for f in glob.glob(os.path.join(src, "*_test.go")) + glob.glob(os.path.join(src,
     # demo files are kept with a .txt suffix so that they are never compiled as part of /verif
     dst = os.path.join(d, os.path.basename(f) + (".txt" if f.endswith(".go") else ""))
     shutil.copy(f, dst)
+# a demonstration that is a scratch module: keep the tree, with .go / go.mod / go.sum renamed so nothing under /verif builds it
+demo = os.path.join(src, "demo")
+if os.path.isdir(demo):
+    for root, dirs, files in os.walk(demo):
+        for fn in files:
+            rel = os.path.relpath(os.path.join(root, fn), src)
+            if os.path.getsize(os.path.join(root, fn)) > 300000:
+                continue
+            dst = os.path.join(d, rel + (".txt" if fn.endswith(".go") or fn in ("go.mod", "go.sum") else ""))
+            os.makedirs(os.path.dirname(dst), exist_ok=True)
+            shutil.copy(os.path.join(root, fn), dst)
 json.dump({"id": sid, "breaks_property": prop, "needs_to_manifest": needs, "caught_by": caught,
            "what_i_ran": ran or "confirm_seed.sh (scratch worktree /tmp/confirm_wt: git apply; go build ./...; go test ./... same as baseline; demo fails with the change, passes without) and seeded_eval.sh (git -C /repo apply; templvet quick+thorough; git -C /repo checkout -- .)",
            "source": "written by an independent sub-agent that saw only the property text and its own worktree"}, open(os.path.join(d, "meta.json"), "w"), indent=1)
